@@ -549,6 +549,99 @@ fn secret_key_roundtrip(rep: &Report, cen: &mut Census) {
     }
 }
 
+/// BIP-388 wallet policies: template strings round-trip for every placeholder path spelling
+/// (`/**` and `/<a;b>/*` over a grid of a < b incl. different digit counts and the largest
+/// unhardened indices), and descriptor -> policy -> descriptor is the identity.
+fn wallet_policy_roundtrip(rep: &Report, cen: &mut Census) {
+    use miniscript::descriptor::WalletPolicy;
+    let vals: [u32; 12] = [0, 1, 2, 3, 9, 10, 11, 30, 99, 100, 2147483646, 2147483647];
+    let mut paths: Vec<(String, bool)> = vec![("**".to_string(), true)];
+    for a in vals {
+        for b in vals {
+            paths.push((format!("<{};{}>/*", a, b), a < b));
+        }
+    }
+    let templates = ["wpkh(@0/P)", "wsh(multi(2,@0/P,@1/**))", "wsh(multi(2,@0/**,@1/P))", "tr(@0/P,pk(@1/**))", "tr(@0/**,{pk(@1/P),pk(@2/**)})", "sh(wsh(and_v(v:pk(@0/P),older(5))))"];
+    let xpubs = [
+        "[d34db33f/48'/0'/0'/2']xpub6ERApfZwUNrhLCkDtcHTcxd75RbzS1ed54G1LkBUHQVHQKqhMkhgbmJbZRkrgZw4koxb5JaHWkY4ALHY2grBGRjaDMzQLcgJvLJuZZvRcEL",
+        "[aabbccdd/48'/0'/0'/2']xpub661MyMwAqRbcFtXgS5sYJABqqG9YLmC4Q1Rdap9gSE8NqtwybGhePY2gZ29ESFjqJoCu1Rupje8YtGqsefD265TMg7usUDFdp6W1EGMcet8",
+        "[11223344/48'/0'/0'/2']xpub661MyMwAqRbcGDZQUKLqmWodYLcoBQnQH33yYkkF3jjxeLvY8qr2wWGEWkiKFaaQfJCoi3HeEq3Dc5DptfbCyjD38fNhSqtKc1UHaP4ba3t",
+    ];
+    for (p, valid) in &paths {
+        for t in templates {
+            let ts = t.replace('P', p);
+            bump(cen, "wallet_policy_templates");
+            let mut viol = |class: &str, what: String| {
+                rep.violation(Violation {
+                    key: format!("C10|wallet-policy-{}|{}", class, ts),
+                    class: format!("wallet-policy-{}", class),
+                    what,
+                    case: json!({"template": ts}),
+                });
+            };
+            match guard(|| WalletPolicy::from_str(&ts)) {
+                Ok(Ok(wp)) => {
+                    if !valid {
+                        // a >= b is not a valid receive/change pair; accepting it is not a round-trip matter
+                        bump(cen, "wallet_policy_invalid_pair_accepted");
+                    }
+                    let shown = wp.to_string();
+                    match guard(|| WalletPolicy::from_str(&shown)) {
+                        Ok(Ok(wp2)) => {
+                            if wp2.to_string() != shown {
+                                viol("reformat", format!("'{}' re-displays as '{}'", shown, wp2));
+                            } else {
+                                bump(cen, "wallet_policy_roundtrips_ok");
+                            }
+                        }
+                        Ok(Err(e)) => viol("reparse-fails", format!("display '{}' does not parse back: {:?}", shown, e)),
+                        Err(pn) => viol("reparse-panics", pn),
+                    }
+                    // descriptor with full keys -> policy (template + key information) -> descriptor
+                    if *valid {
+                        let full = |i: usize, path: &str| format!("{}/{}", xpubs[i], if path == "**" { "<0;1>/*" } else { path });
+                        let mut ds = ts.clone();
+                        for i in 0..3 {
+                            ds = ds.replace(&format!("@{}/{}", i, p), &full(i, p)).replace(&format!("@{}/**", i), &full(i, "**"));
+                        }
+                        if let Ok(Ok(d)) = guard(|| Descriptor::<DescriptorPublicKey>::from_str(&ds)) {
+                            match guard(|| WalletPolicy::from_descriptor(&d)) {
+                                Ok(Ok(back)) => {
+                                    let expect = ts.replace("<0;1>/*", "**");
+                                    if back.to_string() != expect {
+                                        viol("from_descriptor-template", format!("descriptor '{}' gives template '{}', expected '{}'", ds, back, expect));
+                                    }
+                                    match guard(|| back.clone().into_descriptor()) {
+                                        Ok(Ok(d2)) => {
+                                            if d2 != d {
+                                                viol("descriptor-roundtrip", format!("'{}' -> policy -> '{}'", d, d2));
+                                            } else {
+                                                bump(cen, "wallet_policy_descriptor_roundtrips_ok");
+                                            }
+                                        }
+                                        Ok(Err(e)) => viol("into_descriptor-fails", format!("{:?}", e)),
+                                        Err(pn) => viol("into_descriptor-panics", pn),
+                                    }
+                                }
+                                Ok(Err(e)) => viol("from_descriptor-fails", format!("{:?} for {}", e, ds)),
+                                Err(pn) => viol("from_descriptor-panics", pn),
+                            }
+                        }
+                    }
+                }
+                Ok(Err(e)) => {
+                    if *valid {
+                        viol("valid-template-refused", format!("'{}' is refused: {:?}", ts, e));
+                    } else {
+                        bump(cen, "wallet_policy_invalid_pair_refused");
+                    }
+                }
+                Err(pn) => viol("parse-panics", pn),
+            }
+        }
+    }
+}
+
 fn key_roundtrip(rep: &Report, cen: &mut Census) {
     let xpub = "xpub6ERApfZwUNrhLCkDtcHTcxd75RbzS1ed54G1LkBUHQVHQKqhMkhgbmJbZRkrgZw4koxb5JaHWkY4ALHY2grBGRjaDMzQLcgJvLJuZZvRcEL";
     let tpub = "tpubD6NzVbkrYhZ4WLczPJWReQycCJdd6YVWXubbVUFnJ5KgU5MDQrD998ZJLNGbhd2pq7ZtDiPYTfJ7iBenLVQpYgSQqPjUsQeJXH8VQ8xA67D";
@@ -950,6 +1043,7 @@ pub fn run(tier: Tier) -> i32 {
     policy_roundtrip(&rep, &mut cen, tier);
     key_roundtrip(&rep, &mut cen);
     secret_key_roundtrip(&rep, &mut cen);
+    wallet_policy_roundtrip(&rep, &mut cen);
     let (cs_evals, patterns) = checksum_checks(&rep, &mut cen, &strings, tier);
     rep.merge_counts(&cen);
     if let Some(s) = strings.iter().max_by_key(|s| s.len()) {
